@@ -77,7 +77,7 @@ impl Property for C16 {
         let tree = gen_tree(t, &TreeCfg { links: true, ..TreeCfg::default() });
         let base = if t.chance(40) { gen_base(t, &tree) } else { Base::Abs };
         let under = gen_under(t, &tree, &base);
-        let mut layers = gen_layers(t, &tree, 1);
+        let mut layers = rebase_layers(gen_layers(t, &tree, 1), &base);
         // bias: a second layer that talks about the same entries as the first
         if layers.len() < MAX_LAYERS && t.chance(120) {
             let l = layers[t.below(layers.len())].clone();
